@@ -317,6 +317,139 @@ fn gen_script(rng: &mut Rng, victim_server: bool, hostile_rate: f64) -> Script {
     Script { seed: rng.next(), victim_server, evs, pipe: rng.below(3) as u8 }
 }
 
+
+// ---------------------------------------------------------------------------
+// streams that end with unread bytes: what one stream's consumer left behind must never surface on a stream
+// opened later (same session or another one in the process)
+
+/// returns (problems, streams checked)
+async fn abandoned_reader_case(victim_server: bool, sizes: &[(usize, usize)], same_session: bool) -> (Vec<String>, u64) {
+    use crate::engine;
+    let mut problems = Vec::new();
+    let mut checked = 0u64;
+    let tag_bytes = |id: u32, n: usize| -> Vec<u8> { (0..n).map(|i| (id as u8).wrapping_mul(16).wrapping_add((i % 13) as u8) | 0x80 * (id as u8 & 1)).collect() };
+    let mut next_id = 1u32;
+    let rounds = sizes.len();
+    // one session for all rounds, or a fresh session per round
+    let mut srv: Option<engine::RawVsServer> = None;
+    let mut cli: Option<engine::ClientVsRaw> = None;
+    for (round, (sent, consumed)) in sizes.iter().enumerate() {
+        if !same_session || round == 0 {
+            if victim_server {
+                let mut rv = engine::raw_vs_server(PipeCfg::plain(), PipeCfg::plain(), engine::no_padding());
+                let _ = rv.peer.send(refcodec::SETTINGS, 0, &engine::settings_payload("x")).await;
+                srv = Some(rv);
+            } else {
+                cli = Some(engine::client_vs_raw(PipeCfg::plain(), PipeCfg::plain(), engine::no_padding(), None).await);
+            }
+        }
+        let id;
+        let stream: Arc<Stream>;
+        let data = tag_bytes(next_id, *sent);
+        if victim_server {
+            let rv = srv.as_mut().unwrap();
+            id = next_id * 2 + 1;
+            let _ = rv.peer.send(refcodec::SYN, id, &[]).await;
+            let _ = rv.peer.send(refcodec::PSH, id, &data).await;
+            let _ = rv.peer.send(refcodec::FIN, id, &[]).await;
+            stream = match tokio::time::timeout(Duration::from_secs(5), rv.new_streams.recv()).await {
+                Ok(Some(st)) => st,
+                _ => {
+                    problems.push(format!("round {round}: the server session did not surface stream {id}"));
+                    return (problems, checked);
+                }
+            };
+        } else {
+            let cv = cli.as_mut().unwrap();
+            let Ok((st, _rx)) = engine::open_like_client(&cv.client, Bytes::from_static(b"d")).await else {
+                problems.push(format!("round {round}: open failed"));
+                return (problems, checked);
+            };
+            id = st.id();
+            let _ = cv.peer.send(refcodec::SYNACK, id, &[]).await;
+            let _ = cv.peer.send(refcodec::PSH, id, &data).await;
+            let _ = cv.peer.send(refcodec::FIN, id, &[]).await;
+            stream = st;
+        }
+        next_id += 1;
+        tokio::time::sleep(Duration::from_secs(1)).await; // everything delivered and processed
+        // the consumer takes `consumed` bytes in small reads and then loses interest (the last round reads everything)
+        let last = round + 1 == rounds;
+        let take = if last { *sent } else { (*consumed).min(*sent) };
+        let mut got = Vec::new();
+        {
+            let mut rd = stream.reader().lock().await;
+            let mut buf = vec![0u8; if last { 4096 } else { 7 }];
+            while got.len() < take {
+                let want = buf.len().min(take - got.len());
+                match tokio::time::timeout(Duration::from_secs(5), rd.read(&mut buf[..want])).await {
+                    Ok(Ok(n)) if n > 0 => got.extend_from_slice(&buf[..n]),
+                    _ => break,
+                }
+            }
+            if last {
+                // and then the end of the stream, nothing else
+                match tokio::time::timeout(Duration::from_secs(5), rd.read(&mut buf)).await {
+                    Ok(Ok(0)) => {}
+                    Ok(Ok(n)) => got.extend_from_slice(&buf[..n]),
+                    _ => {}
+                }
+            }
+        }
+        checked += 1;
+        if got != data[..take.min(data.len())] || (last && got.len() != data.len()) {
+            let at = got.iter().zip(data.iter()).position(|(a, b)| a != b).unwrap_or(got.len().min(data.len()));
+            problems.push(format!(
+                "round {round} ({} role, {}): stream {id} was sent {} tagged bytes; its reader returned {} bytes, differing from them at offset {at} (got {:02x?}, want {:02x?}) — earlier streams of this process had ended with {:?} unread bytes",
+                if victim_server { "server" } else { "client" },
+                if same_session { "same session" } else { "fresh session per stream" },
+                data.len(),
+                got.len(),
+                &got[at.min(got.len())..(at + 6).min(got.len())],
+                &data[at.min(data.len())..(at + 6).min(data.len())],
+                sizes[..round].iter().map(|(s, c)| s.saturating_sub(*c)).collect::<Vec<_>>()
+            ));
+            break;
+        }
+        drop(stream); // the consumer is gone; the peer's FIN has already ended the stream
+        tokio::time::sleep(Duration::from_secs(1)).await;
+    }
+    (problems, checked)
+}
+
+fn run_abandoned(rep: &mut Report, rng: &mut Rng, n: usize) {
+    for i in 0..n {
+        let rounds = rng.usize(2, 5);
+        let sizes: Vec<(usize, usize)> = (0..rounds)
+            .map(|_| {
+                let sent = *rng.pick(&[8usize, 100, 5000, 20_000, 65_535]);
+                (sent, rng.usize(0, sent.min(40)))
+            })
+            .collect();
+        let victim_server = i % 2 == 0;
+        let same_session = rng.chance(0.5);
+        run::case_begin(&format!("C02 abandoned readers {i}"));
+        let sz = sizes.clone();
+        let r = run::vt_block_on_deadline(Duration::from_secs(100_000), async move { abandoned_reader_case(victim_server, &sz, same_session).await });
+        let case = json!({"kind": "c02-abandoned", "victim_server": victim_server, "same_session": same_session, "sent_and_consumed": sizes});
+        rep.case(Some(hash_str(&case.to_string())));
+        match r {
+            None => rep.violate("isolation", "stream_ended_with_unread_bytes", "case_stuck", "case did not finish".to_string(), case.clone()),
+            Some((problems, checked)) => {
+                rep.add("streams_opened_after_an_abandoned_one", checked.saturating_sub(1));
+                for p in problems {
+                    rep.violate("isolation", "stream_ended_with_unread_bytes", "foreign_bytes_on_stream", p, case.clone());
+                }
+            }
+        }
+        for p in run::take_thread_panics() {
+            if !run::is_harness_panic(&p) {
+                rep.violate("isolation", "stream_ended_with_unread_bytes", "panic", p, case.clone());
+            }
+        }
+    }
+}
+
 pub fn run(ctx: Ctx) -> Report {
     let n = ctx.tier.pick(6400, 160_000);
     let n_mux = ctx.tier.pick(480, 16_000);
@@ -328,6 +461,8 @@ pub fn run(ctx: Ctx) -> Report {
             let sc = gen_script(&mut rng, i % 2 == 0, rate);
             run_script(rep, &sc, shard == 0 && i < 2);
         }
+        // (1b) streams whose consumer leaves bytes unread, followed by new streams
+        run_abandoned(rep, &mut rng, ctx.tier.pick(160, 4000) / nshards);
         // (2) systematic: every hostile frame kind inserted at every frame boundary of a clean script
         for k in 0..ctx.tier.pick(1, 12) {
             if k % nshards.min(12) != shard % nshards.min(12) && ctx.tier == crate::report::Tier::Thorough {
